@@ -295,7 +295,10 @@ void World::opBuild(const Item& op)
             probe("setdata-one-byte-from-previous");
         }
     }
-    if (op.get("same", 0))
+    const int64_t alias = slot.fromWire && !slot.everSet ? 0 : op.get("alias", 0);  // 1: own views as they are, 2: own prefix / own ids + shorter external vendor data
+    bool aliasReady = false;
+    const lib::BuildData requested = bd;
+    if (op.get("same", 0) || alias)
     {
         // exactly the content the object already reports through its getters (idempotence; "re-sent with the same content")
         std::string ve = "not-valid";
@@ -328,7 +331,26 @@ void World::opBuild(const Item& op)
             else if (cls != wire::K_ANALOG)
                 bd.data = slice(cur.data);
             probe("setdata-with-reported-content");
+            if (alias && (cls == wire::K_CAN || cls == wire::K_CANFD || cls == wire::K_LIN || cls == wire::K_ETH || cls == wire::K_IFSTAT))
+            {
+                aliasReady = true;
+                if (alias == 2)
+                {
+                    // what the call is going to ask for: a prefix of the own data / the own ids with other, not longer vendor data
+                    if (cls == wire::K_IFSTAT)
+                    {
+                        Bytes nv = requested.vendor;
+                        if (nv.size() > bd.vendor.size())
+                            nv.resize(bd.vendor.size());
+                        bd.vendor = nv;
+                    }
+                    else if (requested.data.size() < bd.data.size())
+                        bd.data.resize(requested.data.size());
+                }
+            }
         }
+        if (alias && !aliasReady && !op.get("same", 0))
+            bd = requested;  // the object is in no state for it: an ordinary setData with the requested content
     }
     slot.prevBd = bd;
     slot.hasPrevBd = true;
@@ -344,8 +366,11 @@ void World::opBuild(const Item& op)
         slot.b->assignFrom(donor);
         probe("content-by-assignment");
     }
+    else if (aliasReady && slot.b->setDataAliased(alias == 2 ? 1 : 0, bd))
+        probe("setdata-with-own-views-as-arguments");
     else
         slot.b->setData(bd);
+    slot.everSet = true;
     res.apiCalls++;
     Bytes after = slot.b->raw();
     evBytes(after.data(), after.size(), "built-payload");
